@@ -36,6 +36,61 @@ def vmap(fun, in_axes=0, out_axes=0):
     return f
 
 
-for _name, _f in [("to_np", to_np), ("sparse_csr", sparse_csr), ("linear_transpose", linear_transpose), ("vmap", vmap)]:
+def jvp_derivs(fun, primals, tangents, create_graph=True):
+    # exact derivatives are supplied with the map (closed family of polynomial maps the generator uses)
+    if hasattr(fun, "jvp"):
+        return fun.jvp(primals[0], tangents[0])
+    raise np_fns.NumpyNotImplementedError()
+
+
+def vjp_derivs(fun, primals, duals, create_graph=True):
+    if hasattr(fun, "vjp"):
+        return (fun.vjp(primals[0], duals), )
+    raise np_fns.NumpyNotImplementedError()
+
+
+def grad(fun):
+    if hasattr(fun, "grad_obj"):
+        return fun.grad_obj
+    raise np_fns.NumpyNotImplementedError()
+
+
+class QuadMap:
+    """f(x)_i = x^T Q_i x + (M x)_i with integer data; Jacobian J(x)[i,:] = x^T (Q_i + Q_i^T) + M[i,:]"""
+    def __init__(self, Q, M):
+        self.Q, self.M = np.asarray(Q, dtype=float), np.asarray(M, dtype=float)
+
+    def jac(self, x):
+        return np.einsum("j,ijk->ik", x, self.Q + self.Q.transpose(0, 2, 1)) + self.M
+
+    def __call__(self, x):
+        return np.einsum("j,ijk,k->i", x, self.Q, x) + self.M @ x
+
+    def jvp(self, x, t):
+        return self.jac(np.asarray(x)) @ t
+
+    def vjp(self, x, v):
+        return v @ self.jac(np.asarray(x))
+
+
+class QuadForm:
+    """scalar f(x) = x^T S x / 2 with S symmetric; Hessian = S"""
+    class _G:
+        def __init__(self, S):
+            self.S = S
+
+        def jvp(self, x, t):
+            return self.S @ t
+
+    def __init__(self, S):
+        self.S = np.asarray(S, dtype=float)
+        self.grad_obj = QuadForm._G(self.S)
+
+    def __call__(self, x):
+        return 0.5 * x @ self.S @ x
+
+
+for _name, _f in [("to_np", to_np), ("sparse_csr", sparse_csr), ("linear_transpose", linear_transpose), ("vmap", vmap),
+                  ("jvp_derivs", jvp_derivs), ("vjp_derivs", vjp_derivs), ("grad", grad)]:
     setattr(np_fns, _name, _f)
 import cola  # noqa: E402
